@@ -98,6 +98,7 @@ pub fn run_dynamic_with<D: GD + Clone>(d: &mut D, ext: &Extent, frames_in_regist
         return rep;
     }
     let f0 = frame_depth(d);
+    let data_cap = d.get_data_len() + 4_000;
     let mut frames: Vec<i64> = vec![]; // operand count at callee entry
     let mut vs_expected: i64 = v0 as i64 + 1;
     let oc = |d: &D, frames: &Vec<i64>| -> i64 { d.get_register_len() as i64 - reg0 - if frames_in_registers { frames.len() as i64 } else { 0 } };
@@ -107,6 +108,11 @@ pub fn run_dynamic_with<D: GD + Clone>(d: &mut D, ext: &Extent, frames_in_regist
         }
     };
     loop {
+        // a loop that builds an ever larger value is cut like one that runs too long: the stores' per-step cost grows with
+        // their size, so a step bound alone is no work bound
+        if rep.steps % 16 == 0 && d.get_data_len() > data_cap {
+            return rep;
+        }
         if rep.steps >= max_steps {
             return rep;
         }
